@@ -467,13 +467,14 @@ func (c *c10ctx) ruleR2() {
 
 func reachFromBlock(b *ssa.BasicBlock, barrier, stop func(ssa.Instruction) bool) []ssa.Instruction {
 	var out []ssa.Instruction
-	seen := map[*ssa.BasicBlock]bool{}
-	var walk func(b *ssa.BasicBlock)
-	walk = func(b *ssa.BasicBlock) {
-		if seen[b] {
+	type visit struct{ b, from *ssa.BasicBlock }
+	seen := map[visit]bool{}
+	var walk func(b, from *ssa.BasicBlock)
+	walk = func(b, from *ssa.BasicBlock) {
+		if seen[visit{b, from}] {
 			return
 		}
-		seen[b] = true
+		seen[visit{b, from}] = true
 		for _, in := range b.Instrs {
 			if barrier != nil && barrier(in) {
 				return
@@ -483,11 +484,20 @@ func reachFromBlock(b *ssa.BasicBlock, barrier, stop func(ssa.Instruction) bool)
 				return
 			}
 		}
-		for _, s := range b.Succs {
-			walk(s)
+		succs := b.Succs
+		if len(b.Instrs) > 0 {
+			if iff, ok := b.Instrs[len(b.Instrs)-1].(*ssa.If); ok {
+				// a branch on a condition merged from constants is decided by the way in
+				if k := decidedOnEdge(iff.Cond, b, from); k >= 0 {
+					succs = b.Succs[k : k+1]
+				}
+			}
+		}
+		for _, s := range succs {
+			walk(s, b)
 		}
 	}
-	walk(b)
+	walk(b, nil)
 	return out
 }
 
